@@ -700,6 +700,7 @@ def rw_closure_specs(toks, specs, rep, qual):
     cl = find_closures(toks)
     out = list(toks)
     resolved = []
+    lost_specs = []
     for (k, retdecl, ens) in specs:
         if isinstance(k, tuple):
             _, text, nth = k
@@ -711,7 +712,7 @@ def rw_closure_specs(toks, specs, rep, qual):
                     hits.append(idx)
             if len(hits) < nth:
                 if k[0] != "anchor?":
-                    rep.append(("LOST", f"closure {text!r} #{nth} not found: contract not attached"))
+                    lost_specs.append((text, nth, retdecl, ens))
                 continue
             resolved.append((hits[nth - 1], retdecl, ens))
         else:
@@ -719,6 +720,45 @@ def rw_closure_specs(toks, specs, rep, qual):
                 rep.append(("LOST", f"closure ordinal {k} not found ({len(cl)} closures): contract not attached"))
                 continue
             resolved.append((k, retdecl, ens))
+    if lost_specs:
+        # positional fallback: the anchor text is gone (the closure was rewritten) — if exactly as many closures are left
+        # without a contract as contracts lost their anchor, attach them in source order.  Attaching a contract only adds
+        # the obligation that the closure satisfies it, so a wrong guess can fail but never hides anything.
+        taken = {k for (k, _, _) in resolved}
+        free = [i for i in range(len(cl)) if i not in taken]
+
+        def params_of_closure(i):
+            (a, close, bs, be, block) = cl[i]
+            return [("_" if re.fullmatch(r"_u\d+", t.text) else t.text) for t in toks[a:close + 1] if t.kind not in (WS, COMMENT, "raw")]
+
+        def params_of_anchor(text):
+            pt = pat_tokens(text)
+            if not pt or pt[0] not in ("|", "||"):
+                return None
+            if pt[0] == "||":
+                return ["||"]
+            out_p = ["|"]
+            for tt in pt[1:]:
+                out_p.append(tt)
+                if tt == "|":
+                    return out_p
+            return None
+        if len(free) == len(lost_specs):
+            for i, (text, nth, retdecl, ens) in zip(free, lost_specs):
+                resolved.append((i, retdecl, ens))
+                rep.append(("hint", f"closure {text!r} #{nth}: anchor text gone, contract attached by position (closure {i})"))
+        else:
+            # fewer (or more) closures than before: attach a lost contract to the only free closure with the same
+            # parameter list; contracts of closures that no longer exist are dropped
+            for (text, nth, retdecl, ens) in lost_specs:
+                want = params_of_anchor(text)
+                cands = [i for i in free if want is not None and params_of_closure(i) == want]
+                same_params_lost = [t for (t, _, _, _) in lost_specs if params_of_anchor(t) == want]
+                if len(cands) == 1 and len(same_params_lost) == 1:
+                    resolved.append((cands[0], retdecl, ens)); free.remove(cands[0])
+                    rep.append(("hint", f"closure {text!r} #{nth}: anchor text gone, contract attached to the only uncontracted closure with the same parameters (closure {cands[0]})"))
+                else:
+                    rep.append(("LOST", f"closure {text!r} #{nth} not found: contract not attached"))
     for (k, retdecl, ens) in sorted(resolved, key=lambda x: -x[0]):
         (a, close, bs, be, block) = cl[k]
         hdr = f" -> {retdecl} ensures {ens} "
